@@ -2165,6 +2165,9 @@ pick:
 		}
 		break;
 	case DISPATCH_OP_COMPLETE_RESUME:
+		// _dispatch_stream_source() below may create the source from op,
+		// which must not be freed by its completion before that
+		_dispatch_retain(op);
 		_dispatch_stream_complete_operation(stream, op);
 		DISPATCH_FALLTHROUGH;
 	case DISPATCH_OP_RESUME:
@@ -2175,6 +2178,9 @@ pick:
 				!stream->source_running) {
 			stream->source_running = true;
 			dispatch_resume(_dispatch_stream_source(stream, op));
+		}
+		if (result == DISPATCH_OP_COMPLETE_RESUME) {
+			_dispatch_release(op);
 		}
 		break;
 	case DISPATCH_OP_ERR:
